@@ -68,6 +68,20 @@ struct TTProber : Prober {
         tt.reSize(1 << 20);          // 16 MB, enough to host a table
         RelaxedShared<S64> t(-1);
         ok = tt.updateTB(sample, t);
+        // what happens to a table inside the hash table between its generation and its use: a few searches start on positions the
+        // table does not cover (it stays resident for up to four of them) and store their results in the hash table
+        if (ok) {
+            Position foreign = TextIO::readFEN("4k3/pppp4/8/8/8/8/4PPPP/4K3 w - - 0 1");
+            Random r(12345, 7);
+            for (int k = 0; k < 3; k++) {
+                if (!tt.updateTB(foreign, t)) break;
+                for (int i = 0; i < 400000; i++) {
+                    Move mv(Square(r.nextInt(64)), Square(r.nextInt(64)), 0);
+                    mv.setScore(r.nextInt(1000));
+                    tt.insert(r.nextU64(), mv, 1 + r.nextInt(3), 0, r.nextInt(50), 0);
+                }
+            }
+        }
     }
     bool probe(const Position& pos, int& score) override { return tt.probeDTM(pos, 0, score); }
 };
